@@ -13,6 +13,17 @@ export CARGO_TERM_COLOR=never
 HARNESS="$ROOT/harness"
 TARGET="${VERIF_TARGET_DIR:-$HARNESS/target}"
 LOG="$TARGET/build.log"
+# The harness depends on /repo by path.  Background runs started with `vp run --with-repo` get a
+# snapshot of the repository in $VP_RUN_REPO; for those (and only those) a copy of the harness
+# manifest pointing at the snapshot is built, so /repo itself stays free for other work.
+REPO_DIR="${VERIF_REPO:-${VP_RUN_REPO:-/repo}}"
+if [ "$REPO_DIR" != "/repo" ]; then
+    ALT="$TARGET/alt-harness"
+    mkdir -p "$ALT"
+    rsync -a --delete --exclude target "$HARNESS/" "$ALT/"
+    sed -i "s#\"/repo/#\"$REPO_DIR/#g" "$ALT/Cargo.toml"
+    HARNESS="$ALT"
+fi
 
 build() {
     mkdir -p "$TARGET"
